@@ -42,6 +42,9 @@ def instances(tier):
             out.append(dict(name='koyama-sum[p%d,N%d]' % (pi_, N), fn='koyama_sum', args=dict(par=par, N=N), query_timeout_ms=60000))
     out.append(dict(name='nfjc[N3]', fn='nfjc', args=dict(N=3), query_timeout_ms=20000, timeout=1500))
     out.append(dict(name='aliases', fn='aliases', args={}))
+    for model in ('Gaussian', 'FreelyJointedChain'):
+        for N in ((2,) if tier == 'quick' else (2, 3)):
+            out.append(dict(name='closed-fp[%s,N%d]' % (model, N), fn='closed_fp', args=dict(model=model, N=N), narrow=(tier == 'quick'), query_timeout_ms=600000, timeout=2500))
     return out
 
 
@@ -171,3 +174,90 @@ def nfjc(E, N):
 def aliases(E):
     E.claim_true('FJC-is-FreelyJointedChain', issubclass(pyPRISM.omega.FJC, pyPRISM.omega.FreelyJointedChain) and pyPRISM.omega.FJC.calculate is pyPRISM.omega.FreelyJointedChain.calculate)
     E.claim_true('NFJC-is-NonOverlappingFreelyJointedChain', issubclass(pyPRISM.omega.NFJC, pyPRISM.omega.NonOverlappingFreelyJointedChain))
+
+
+# ----------------------------------------------------------------------------- floating point: cancellation in the closed forms
+
+def closed_fp(E, model, N):
+    """machine arithmetic: the closed form (1 - E^2 - 2E/N + 2E^(N+1)/N)/(1-E)^2 evaluated in doubles vs the pair sum.
+    The real calculate() is executed on Float64 terms; the transcendental call (np.exp / np.sin(kl)/(kl)) is stubbed by
+    'any double E in [0.5, 1)'. Obligation: relative deviation from the (well-conditioned) pair-sum polynomial <= 1e-3."""
+    import z3, math
+    from vsym import fp
+    import importlib
+    if not E.sym:
+        Ev = E.real('E', default=0.9)
+        s = 1.0
+        if model == 'Gaussian':
+            k = math.sqrt(-6.0 * math.log(Ev)) / s
+            om = pyPRISM.omega.Gaussian(sigma=s, length=N)
+            Ek = math.exp(-k * k * s * s / 6.0)
+        else:
+            # E = sin(x)/x with x = k*l small: x ~ sqrt(6(1-E))
+            x = math.sqrt(6.0 * (1.0 - Ev)); k = x / s
+            om = pyPRISM.omega.FreelyJointedChain(length=N, l=s)
+            Ek = math.sin(k * s) / (k * s)
+        val = om.calculate(_np.array([k]))[0]
+        ps = pair_sum(N, lambda n: Ek ** n)
+        E.claim_true('finite', bool(_np.isfinite(val)))
+        E.claim_true('closed-form-within-1e-3-of-pair-sum', bool(_np.isfinite(val)) and abs(val - ps) <= 1e-3 * ps)
+        E.claim_true('closed-form-within-[0.999,1.001N]-as-the-pair-sum-is', bool(_np.isfinite(val)) and 0.999 <= val <= 1.001 * N)
+        E.claim_true('omega<=N', bool(_np.isfinite(val)) and val <= N * (1 + 1e-9))
+        return
+    mod = importlib.import_module('pyPRISM.omega.Gaussian' if model == 'Gaussian' else 'pyPRISM.omega.FreelyJointedChain')
+    Ev = z3.FP('E', fp.F64)
+
+    class NPX:
+        def __getattr__(self, k):
+            return getattr(_np, k)
+
+        def exp(self, x):
+            out = _np.empty(_np.shape(x), dtype=object); out.fill(fp.SF(Ev)); return out
+
+        def sin(self, x):
+            # FJC: E = np.sin(k*l)/(k*l); the quotient is stubbed as a whole: sin returns E*(k*l) so that the division gives ~E.
+            # Simpler and exact for the purpose: return an object whose division by anything yields E
+            class _Q:
+                def __truediv__(s_, o):
+                    return fp.SF(Ev)
+            out = _np.empty(_np.shape(x), dtype=object); out.fill(_Q()); return out
+    saved = mod.np
+    mod.np = NPX()
+    try:
+        om = pyPRISM.omega.Gaussian(sigma=fp.SF(fp.fv(1.0)), length=N) if model == 'Gaussian' else pyPRISM.omega.FreelyJointedChain(length=N, l=fp.SF(fp.fv(1.0)))
+        karr = _np.empty(1, dtype=object); karr[0] = fp.SF(z3.FP('k', fp.F64))
+        val = om.calculate(karr)[0]
+    finally:
+        mod.np = saved
+    # the pair sum lies in [1, N] for E in (0,1): necessary conditions of "equals the pair sum", posed as two separate
+    # Float64 queries (each decided by cvc5 in about a minute; a combined relative-deviation query is not)
+    # E <= 1 - 1.67e-9 keeps k*sigma >= 1e-4 (the lower end of the property's k range for sigma = 1)
+    lo_E = (1.0 - 3e-9) if E.inst.get('narrow') else 0.5
+    pre = [z3.fpGEQ(Ev, fp.fv(lo_E)), z3.fpLEQ(Ev, fp.fv(1.0 - 1.67e-9))]
+    key = 'closed-form-within-[0.999,1.001N]-as-the-pair-sum-is'
+    r = 'unsat'; vals = {}
+    for bad in (z3.fpLT(val.t, fp.fv(0.999)), z3.fpGT(val.t, fp.fv(N * 1.001))):
+        r1, v1 = fp.solve_fp(pre + [bad], ['E'], timeout_s=max(60, int(E.timeout_ms / 2000)))
+        E.stats['queries'] += 1
+        if r1 == 'sat':
+            r, vals = r1, v1; break
+        if r1 != 'unsat':
+            r = 'unknown'
+    if r == 'unsat':
+        E.results.append(dict(key=key, verdict='holds', s=0, path='', canary=False)); return
+    if r == 'sat' and 'E' in vals:
+        import fractions
+        pth = E._replay(key, {'E': str(fractions.Fraction(vals['E']))})
+        if pth:
+            for f in E.violations[-1]['failed']:
+                E.results.append(dict(key=f, verdict='violation', s=0, path='', canary=False, replay=pth))
+            return
+        # the pow stub may mislead: try the classical witnesses of the same region
+        for cand in (1.0 - 1.67e-9, 1.0 - 2.0 ** -27, 1.0 - 2.0 ** -25):
+            pth = E._replay(key, {'E': str(fractions.Fraction(cand))})
+            if pth:
+                for f in E.violations[-1]['failed']:
+                    E.results.append(dict(key=f, verdict='violation', s=0, path='', canary=False, replay=pth))
+                return
+        E.results.append(dict(key=key, verdict='sat-not-reproduced', s=0, path='', canary=False)); return
+    E.results.append(dict(key=key, verdict='unknown', s=0, path='', canary=False))
